@@ -141,10 +141,15 @@ Proof. unfold set_coll_lastcas. rewrite map_map. apply map_ext. intros [id [nm l
 Lemma set_lastcas_names cid c l : map (fun x : N * (string * N) => fst (snd x)) (set_coll_lastcas cid c l) = map (fun x => fst (snd x)) l.
 Proof. unfold set_coll_lastcas. rewrite map_map. apply map_ext. intros [id [nm lc]]; cbn. destruct (id =? cid); reflexivity. Qed.
 
+Lemma raise_lastcas_ids cid c l : map fst (raise_coll_lastcas cid c l) = map fst l.
+Proof. unfold raise_coll_lastcas. rewrite map_map. apply map_ext. intros [id [nm lc]]; cbn. destruct (id =? cid); reflexivity. Qed.
+Lemma raise_lastcas_names cid c l : map (fun x : N * (string * N) => fst (snd x)) (raise_coll_lastcas cid c l) = map (fun x => fst (snd x)) l.
+Proof. unfold raise_coll_lastcas. rewrite map_map. apply map_ext. intros [id [nm lc]]; cbn. destruct (id =? cid); reflexivity. Qed.
+
 Lemma kv_on_ids s x cid key op : coll_ids (sr_store (kv_on s x cid key op)) = coll_ids s.
-Proof. unfold kv_on, coll_ids; cbv zeta; cbn [sr_store s_colls]. destruct (kr_commit _); [apply set_lastcas_ids | reflexivity]. Qed.
+Proof. unfold kv_on, coll_ids; cbv zeta; cbn [sr_store s_colls]. destruct (kr_commit _); [apply set_lastcas_ids | destruct (is_withmeta op && _); [apply raise_lastcas_ids | reflexivity]]. Qed.
 Lemma kv_on_names s x cid key op : coll_names (sr_store (kv_on s x cid key op)) = coll_names s.
-Proof. unfold kv_on, coll_names; cbv zeta; cbn [sr_store s_colls]. destruct (kr_commit _); [apply set_lastcas_names | reflexivity]. Qed.
+Proof. unfold kv_on, coll_names; cbv zeta; cbn [sr_store s_colls]. destruct (kr_commit _); [apply set_lastcas_names | destruct (is_withmeta op && _); [apply raise_lastcas_names | reflexivity]]. Qed.
 Lemma kv_on_nextcoll s x cid key op : s_nextcoll (sr_store (kv_on s x cid key op)) = s_nextcoll s.
 Proof. reflexivity. Qed.
 
@@ -206,8 +211,11 @@ Proof.
       apply in_map_iff in H5. destruct H5 as (c & Hc1 & Hc2). apply in_map_iff. exists c. split; [exact Hc1|].
       apply filter_In. split; [exact Hc2 | rewrite Hc1; exact Hne].
   - destruct (coll_id s coll); exact Hs.
-  - exact Hs.
+  - destruct Hs; constructor; assumption.
   - destruct (coll_id s coll); exact Hs.
+  - destruct (coll_id s coll); [|exact Hs]. destruct (same_ddoc _ _ _ _); [exact Hs|]. destruct Hs; constructor; assumption.
+  - destruct (coll_id s coll); [|exact Hs]. destruct (existsb _ _); [|exact Hs]. destruct Hs; constructor; assumption.
+  - destruct (coll_id s coll); [|exact Hs]. destruct (filter _ _); [exact Hs|]. destruct Hs; constructor; assumption.
   - pose proof (expire_colls_tables x (map fst (s_colls s)) s [] (fun c H => H) Hs) as H.
     destruct (expire_colls s x (map fst (s_colls s)) []) as [s' evs]. exact H.
 Qed.
@@ -242,9 +250,12 @@ Qed.
 Theorem kv_on_other_lastcas s x cid key op cid' p :
   cid' <> cid -> In (cid', p) (s_colls s) -> In (cid', p) (s_colls (sr_store (kv_on s x cid key op))).
 Proof.
-  intros Hne Hin. unfold kv_on; cbv zeta; cbn [sr_store s_colls]. destruct (kr_commit _); [|exact Hin].
-  unfold set_coll_lastcas. apply in_map_iff. exists (cid', p). split; [|exact Hin]. cbn.
-  destruct (N.eqb_spec cid' cid); [contradiction | reflexivity].
+  intros Hne Hin. unfold kv_on; cbv zeta; cbn [sr_store s_colls].
+  destruct (kr_commit _); [|destruct (is_withmeta op && _); [|exact Hin]].
+  - unfold set_coll_lastcas. apply in_map_iff. exists (cid', p). split; [|exact Hin]. cbn.
+    destruct (N.eqb_spec cid' cid); [contradiction | reflexivity].
+  - unfold raise_coll_lastcas. apply in_map_iff. exists (cid', p). split; [|exact Hin]. cbn.
+    destruct (N.eqb_spec cid' cid); [contradiction | reflexivity].
 Qed.
 
 (* stated with collection NAMES, as a client addresses them *)
@@ -275,7 +286,8 @@ Lemma coll_id_after_drop s cid name n' :
   tables_ok s -> coll_id s name = Some cid ->
   coll_id (mkStore (filter (fun d => negb (fst (fst d) =? cid)) (s_docs s))
                    (filter (fun c => negb (fst c =? cid)) (s_colls s))
-                   (s_nextcoll s) (s_lastcas s) (s_high s) (s_log s)) n'
+                   (s_nextcoll s) (s_lastcas s) (s_high s) (s_log s)
+                   (filter (fun v => negb (vd_coll v =? cid)) (s_views s))) n'
   = if String.eqb n' name then None else coll_id s n'.
 Proof.
   intros Hs Hc. destruct (coll_id_entry _ _ _ Hc) as (lc & Hin). unfold coll_id; cbn [s_colls].
